@@ -7,9 +7,12 @@
 (* besides their fee (name registrations, renewals and purchases, proposal pay-outs).       *)
 (*                                                                                          *)
 (* What reached the end-of-block routine is T = pool after + all share increments.          *)
-(*   Value.PoolFedByFees      T - pool before = the fees charged (>= when other inflows)    *)
+(*   Value.PoolFedByFees      T - pool before <= the fees charged: nothing enters the pool   *)
+(*                            or the shares that nobody paid (not judged when the block      *)
+(*                            accepted a kind that pays into the pool besides its fee)       *)
 (*   Value.NonNegative        no negative pool or share                                     *)
-(*   Value.SharesNeverFall    no request takes value out of a fee share                     *)
+(*   Conf.PoolGetsAllFees     T - pool before = the fees charged (>= with other inflows)    *)
+(*   Conf.SharesNeverFall     no request takes value out of a fee share                     *)
 (*   Conf.DistributionByPower every stake address is credited exactly what module Fees'     *)
 (*                            rule gives for T, the previous block's powers and the minimal *)
 (*                            fee - nothing at height 1, nothing when T <= minimal fee      *)
@@ -40,9 +43,10 @@ TraceBlock ==
          inc == IF Ev.h > 1 THEN Increments(T, Ev.minFee, pw) ELSE [v \in DOMAIN pw |-> 0]
          want == IncByOwner(inc, ow)
      IN nviol' = nviol
-          + Report("Value.PoolFedByFees", IF Ev.other = <<>> THEN T - Ev.pool0 = Ev.fees ELSE T - Ev.pool0 >= Ev.fees)
+          + Report("Value.PoolFedByFees", Ev.other # <<>> \/ T - Ev.pool0 <= Ev.fees)
           + Report("Value.NonNegative", Ev.pool1 >= 0 /\ \A o \in DOMAIN Ev.share1 : Ev.share1[o] >= 0)
-          + Report("Value.SharesNeverFall", \A o \in owners : delta[o] >= 0)
+          + Report("Conf.PoolGetsAllFees", IF Ev.other = <<>> THEN T - Ev.pool0 = Ev.fees ELSE T - Ev.pool0 >= Ev.fees)
+          + Report("Conf.SharesNeverFall", \A o \in owners : delta[o] >= 0)
           + Report("Conf.DistributionByPower", Ev.big \/ \A o \in owners \cup DOMAIN want : Get(delta, o) = Get(want, o))
 
 TraceNext == TraceBlock
